@@ -29,6 +29,8 @@ CLAIMED = {
          "guard domination with affine normalisation of thresholds; must-facts at delivering exits; first-time-filter typestate"),
  'C19': ("Conformance of the finite parts decided against RFC 4880 tables and formulas typed into the checker: radix-64 alphabet and 256-entry inverse table, CRC-24 constants, line length, armor BEGIN/END strings of encoder and decoder; the body-length encoder and decoder evaluated piecewise over all boundary regions (0..8999, 2^16, 2^24, 2^31, 2^32-1; all 256 first octets incl. partial lengths; old-format types); the iterated-S2K count over all 256 octets; big-endian scalar encoders; the CRC comparison guarding ArmorDecode. Byte-exact conformance of every emitted packet and agreement with GnuPG are not decided.", "§3 C19",
          "finite tables against the standard; piecewise finite-domain evaluation of extracted loop-free definitions; guard domination"),
+ 'C20': ("Static decision of the gates that make OpenPGP objects tamper-evident: the signature validity predicate is evaluated piecewise over the whole hash enum and ten time scenarios against the statement (weak hashes, expiry, key age, far-future dating refused); every Signature::Verify* accepts only with CheckIntegrity's verdict; CheckIntegrity returns true only on success of the dispatched verifier; Message::Decrypt returns true only through AEAD success or CheckMDC on an integrity-protected packet; CheckMDC compares the recomputed hash; AEAD plaintext is released only after its tag check. That altered data fails the cryptographic checks and agreement with GnuPG are not decided.", "§3 C20",
+         "piecewise finite-domain evaluation of the validity predicate; guard domination (must-facts) at accepting exits and output sites"),
 }
 NA = {
  'C01': "algebraic identity over runtime group elements for all masking chains; no clause visible in code shape beyond what C03/C05/C08/C12 claim",
